@@ -345,6 +345,8 @@ def compileDistribute (cfg : Cfg) (S D : Labware) (a : DistArgs) : List Micro :=
       let srcEnd : Int := srcStart + nRows - 1
       let dws := a.dstWells.flattenF
       exceptMicros (dws.mapM fun w => cfg.dev.pos D.geom w) fun ps =>
+        -- a destination well listed more than once is refused (the record dispenses once per well)
+        if ¬ dws.Nodup then [.fail .valueErr] else
         let sorted := ps.mergeSort (· ≤ ·)
         match sorted.head?, sorted.getLast? with
         | some dstStart, some dstEnd =>
